@@ -72,9 +72,9 @@ def s8(ck, an):
     ck.floor("Trade constructions in make_trades", len(cs), 1)
     for c in cs:
         kw = {k.arg: fm.sym.canon(k.value) for k in c.keywords}
-        ctr = kw.get("contract", "?")
+        ctr_src = next((ast.unparse(k.value) for k in c.keywords if k.arg == "contract"), "None")
         for side in ("bid_price", "ask_price"):
-            w = f"broker.exchange[{ctr}].{side}"
+            w = specv(fm, f"broker.exchange[{ctr_src}].{side}", fm.node_of(c).id).key()      # the traded contract's own book, spelled with the call's own contract argument
             ck.check(kw.get(side) == w, "ARGFLOW", f"S8.trade-gets-{side}", fm.f.short, fm.loc(c), f"Trade({side}=) is the traded contract's current {side}",
                      f"Trade({side}=) is {kw.get(side)}, expected {w}", construct=f"{side}=" + str(kw.get(side)))
         ck.check(kw.get("broker_fees") == "broker.fees", "ARGFLOW", "S8.trade-gets-fees", fm.f.short, fm.loc(c), "Trade is charged the broker's fee schedule",
